@@ -171,6 +171,8 @@ class BaseOrganization(object, metaclass=abc.ABCMeta):
                     targeted_task_list=j["targeted_task_list"],
                     parent_workplace=j["parent_workplace"],
                     max_space_size=j["max_space_size"],
+                    input_workplace_list=j.get("input_workplace_list", []),
+                    output_workplace_list=j.get("output_workplace_list", []),
                     cost_list=j["cost_list"],
                     placed_component_list=j["placed_component_list"],
                     placed_component_id_record=j["placed_component_id_record"],
